@@ -540,7 +540,7 @@ Section P.
       rewrite En. auto 10.
     Qed.
 
-    Lemma cmp_ok : forall j m l st, (j <= f)%nat -> (j < n)%nat -> (j <= m)%nat -> G st -> RDs m st ->
+    Lemma cmp_ok : forall j m l st, (j <= f)%nat -> (j <= n)%nat -> (j <= m)%nat -> G st -> RDs m st ->
       (forall k x, In (SComp k, x) l -> (k < j)%nat) ->
       let '(st', ch) := cmp_items prog (callf prog f) l st in
       G st' /\ RDs m st' /\ same_hi j st st' /\
@@ -935,7 +935,7 @@ Section P.
         unfold same_hi, st1. split; [reflexivity|]. split; [reflexivity|]. split; [|split]; auto.
         + intros i Hi. simpl. rewrite updn_other by lia. auto.
         + tauto.
-      - pose proof (cmp_ok j m (flat (parents st j)) st ltac:(lia) Hjn ltac:(lia) HG HR
+      - pose proof (cmp_ok j m (flat (parents st j)) st ltac:(lia) ltac:(lia) ltac:(lia) HG HR
                       (fun k x H => g_par_down _ HG j k x H)) as H.
         destruct (cmp_items prog (callf prog f) (flat (parents st j)) st) as [st1 ch].
         destruct H as (G1 & R1 & S1 & C1 & C2).
@@ -1080,7 +1080,7 @@ Section P.
           pose proof (IHq st k m ltac:(lia) ltac:(lia) ltac:(lia) HG HR i) as Hq.
           destruct (callf prog f st k) as [st1 v]. destruct H as (G1 & R1 & Ev & Dk & Vk & HS & Hc). simpl in Hq.
           destruct (v =? old); [|exact Hq].
-          pose proof (cmp_ok f (call_all f) j m t st1 Hjf Hjn Hjm G1 R1 (fun k x H => Hl k x (or_intror H))) as Hc2.
+          pose proof (cmp_ok f (call_all f) j m t st1 Hjf ltac:(lia) Hjm G1 R1 (fun k x H => Hl k x (or_intror H))) as Hc2.
           specialize (IH st1 Hjf Hjn Hjm G1 R1 (fun k x H => Hl k x (or_intror H)) i).
           destruct (cmp_items prog (callf prog f) t st1) as [st2 ch]. simpl in *.
           destruct Hc2 as (_ & _ & S2 & _).
@@ -1172,7 +1172,7 @@ Section P.
           * left. simpl. rewrite !updn_other by auto. unfold st1 in *. simpl in *. rewrite updn_other in q3 by auto. auto.
           * right. simpl. rewrite !updn_other by auto. split; [exact q1|]. split; [exact q2|]. split; [exact q3|]. split; [|exact q5].
             destruct q4 as [q4|q4]; [left|right; exact q4]. unfold st1 in q4. simpl in q4. rewrite updn_other in q4 by auto. exact q4.
-      - pose proof (cmp_ok f (call_all f) j m (flat (parents st j)) st ltac:(lia) Hjn ltac:(lia) HG HR
+      - pose proof (cmp_ok f (call_all f) j m (flat (parents st j)) st ltac:(lia) ltac:(lia) ltac:(lia) HG HR
                       (fun k x H => g_par_down _ HG j k x H)) as H.
         pose proof (cmp_q j m (flat (parents st j)) st ltac:(lia) Hjn ltac:(lia) HG HR
                       (fun k x H => g_par_down _ HG j k x H)) as Hq1.
@@ -1319,15 +1319,84 @@ Section P.
 
   Variable nobs : list nat.
 
+  (* the throw-away Computed's parents: what run_acts_p adds, and that it is run_acts otherwise *)
+  Lemma run_acts_p_eq : forall acts st tp,
+    fst (fst (run_acts_p prog acts st tp)) = fst (run_acts prog acts st) /\
+    snd (fst (run_acts_p prog acts st tp)) = snd (run_acts prog acts st).
+  Proof.
+    induction acts as [|a t IH]; intros st tp; simpl; auto.
+    destruct a as [o nm|k|o nm v].
+    - destruct (alive st o); apply IH.
+    - destruct ((k <? n)%nat && alive st (cown k)); [|apply IH].
+      destruct (read_top prog st k) as [st1 v]. apply IH.
+    - destruct (alive st o); [|apply IH]. destruct (set_obs prog true st o nm v); [apply IH|auto].
+  Qed.
+
+  Lemma run_acts_p_valid : forall acts st tp,
+    (forall k x, In (SComp k, x) (flat tp) -> (k < n)%nat) ->
+    forall k x, In (SComp k, x) (flat (snd (run_acts_p prog acts st tp))) -> (k < n)%nat.
+  Proof.
+    induction acts as [|a t IH]; intros st tp H; simpl; auto.
+    destruct a as [o nm|k0|o nm v].
+    - destruct (alive st o); apply IH; auto. intros k x Hin. apply in_flat_padd_inv in Hin.
+      destruct Hin as [Hin|Hin]; [discriminate|eauto].
+    - destruct ((k0 <? n)%nat && alive st (cown k0)) eqn:E; [|apply IH; auto].
+      apply andb_true_iff in E. destruct E as [E _]. apply Nat.ltb_lt in E.
+      destruct (read_top prog st k0) as [st1 v]. apply IH. intros k x Hin. apply in_flat_padd_inv in Hin.
+      destruct Hin as [Hin|Hin]; [inversion Hin; subst; exact E|eauto].
+    - destruct (alive st o); [|apply IH; auto]. destruct (set_obs prog true st o nm v); [apply IH; auto|exact H].
+  Qed.
+
+  Lemma cmp_top_ok : forall l st, Inv st -> (forall k x, In (SComp k, x) l -> (k < n)%nat) ->
+    let '(st', ch) := cmp_items prog (callf prog n) l st in
+    Inv st' /\ store st' = store st /\ alive st' = alive st /\
+    (ch = false -> forall s x, In (s, x) l -> Dsrc st s = x) /\
+    (ch = true -> exists s x, In (s, x) l /\ Dsrc st s <> x).
+  Proof.
+    intros l st [HG HR] Hl.
+    pose proof (cmp_ok n (call_all n) n n l st ltac:(lia) ltac:(lia) ltac:(lia) HG HR Hl) as H.
+    destruct (cmp_items prog (callf prog n) l st) as [st' ch]. destruct H as (G1 & R1 & S1 & C1 & C2).
+    split; [split; auto|]. split; [apply S1|]. split; [apply S1|]. split; auto.
+    intros Hc s x Hin. apply (C1 Hc s x Hin).
+  Qed.
+
+  Lemma reread_ok : forall acts tp st, Inv st -> (forall k x, In (SComp k, x) (flat tp) -> (k < n)%nat) ->
+    Inv (fst (reread_rejected prog acts tp st)).
+  Proof.
+    intros acts tp st HI Hv. unfold reread_rejected.
+    pose proof (cmp_top_ok (flat tp) st HI Hv) as H.
+    destruct (cmp_items prog (callf prog n) (flat tp) st) as [st2 ch]. destruct H as (I2 & _).
+    destruct ch; [|exact I2].
+    pose proof (run_acts_ok acts st2 I2) as H. destruct (run_acts prog acts st2) as [st3 ok]. exact H.
+  Qed.
+
+  (* a Computed whose installation was rejected stays installed; reading it while none of the values it read
+     before the rejection has changed returns its cached _value - None - instead of raising again *)
+  Lemma rejected_then_read_none : forall acts tp st, Inv st ->
+    (forall k x, In (SComp k, x) (flat tp) -> (k < n)%nat) ->
+    (forall s x, In (s, x) (flat tp) -> Dsrc st s = x) ->
+    snd (reread_rejected prog acts tp st) = 2.
+  Proof.
+    intros acts tp st HI Hv Hp. unfold reread_rejected.
+    pose proof (cmp_top_ok (flat tp) st HI Hv) as H.
+    destruct (cmp_items prog (callf prog n) (flat tp) st) as [st2 ch]. destruct H as (_ & _ & _ & _ & C2).
+    destruct ch; [|reflexivity]. destruct (C2 eq_refl) as [s [x [H1 H2]]]. exfalso. apply H2. apply Hp. exact H1.
+  Qed.
+
   Lemma step_ok : forall st x, Inv st -> is_kill x = false -> Inv (fst (step prog nobs st x)).
   Proof.
-    intros st x HI Hk. destruct x as [o nm v|k|o|acts]; try discriminate; unfold step.
+    intros st x HI Hk. destruct x as [o nm v|k|o|acts|acts]; try discriminate; unfold step.
     - destruct (alive st o); auto. destruct (set_obs prog false st o nm v) as [st1|] eqn:E; auto.
       cbn [fst]. eapply set_ok; eauto.
     - destruct ((k <? n)%nat && alive st (cown k)) eqn:E; auto.
       apply andb_true_iff in E. destruct E as [E _]. apply Nat.ltb_lt in E.
       pose proof (read_top_ok st k HI E) as H. destruct (read_top prog st k) as [st' v]. simpl. apply H.
     - pose proof (run_acts_ok acts st HI) as H. destruct (run_acts prog acts st) as [st1 ok]. exact H.
+    - pose proof (run_acts_ok acts st HI) as H. destruct (run_acts_p_eq acts st []) as [E1 _].
+      pose proof (run_acts_p_valid acts st [] (fun k x (Hin : In (SComp k, x) (flat [])) => match Hin with end)) as Hv.
+      destruct (run_acts_p prog acts st []) as [[st1 ok] tp]. cbn [fst snd] in *. rewrite <- E1 in H.
+      destruct ok; [exact H|].
+      pose proof (reread_ok acts tp st1 H Hv) as H2. destruct (reread_rejected prog acts tp st1) as [st2 r]. exact H2.
   Qed.
 
   Lemma final_snoc' : forall pre st x,
@@ -1543,7 +1612,7 @@ Section P.
   Proof.
     intros f st j Hjf Hjn [HG HR] Hf Hp. destruct f as [|f]; [lia|]. simpl.
     destruct (dirty st j) eqn:Ed; simpl; auto. rewrite Hf.
-    pose proof (cmp_ok f (call_all f) j n (flat (parents st j)) st ltac:(lia) Hjn ltac:(lia) HG HR
+    pose proof (cmp_ok f (call_all f) j n (flat (parents st j)) st ltac:(lia) ltac:(lia) ltac:(lia) HG HR
                   (fun k x H => g_par_down _ HG j k x H)) as H.
     destruct (cmp_items prog (callf prog f) (flat (parents st j)) st) as [st1 ch].
     destruct H as (G1 & R1 & S1 & C1 & C2).
@@ -1763,6 +1832,24 @@ Section Cyc.
     intros st k o nm v Hk Hal Ho Hd Hf Hps. rewrite read_comp_then_write by auto.
     rewrite (read_cached_noop prog st k Hk Hd Hf). simpl. rewrite Hps. reflexivity.
   Qed.
+
+  (* the read set outlives the evaluation that filled it: only a top-level assignment empties it *)
+  Lemma assign_clears_read_set : forall st o nm v st', set_obs prog false st o nm v = Some st' -> ps st' = [].
+  Proof. intros st o nm v st' H. unfold set_obs in H. simpl in H. inversion H. reflexivity. Qed.
+
+  Lemma read_keeps_read_set : forall st k o nm, ps_mem o nm (ps st) = true ->
+    ps_mem o nm (ps (fst (read_top prog st k))) = true.
+  Proof. intros. eapply ps_mem_pext; [apply read_top_pext|assumption]. Qed.
+
+  (* so a function that reads NOTHING and assigns x is rejected when some earlier evaluation read x and no
+     top-level assignment happened since ("false rejection"), and accepted right after an assignment *)
+  Lemma false_rejection : forall st o nm v, alive st o = true -> ps_mem o nm (ps st) = true ->
+    snd (run_acts prog [AWrite o nm v] st) = false.
+  Proof. intros. apply write_rejected_iff; auto. Qed.
+
+  Lemma no_rejection_on_empty_read_set : forall st o nm v, alive st o = true -> ps st = [] ->
+    snd (run_acts prog [AWrite o nm v] st) = true.
+  Proof. intros st o nm v Hal Hps. simpl. rewrite Hal. unfold set_obs. rewrite Hps. reflexivity. Qed.
 
   (* a rejected assignment leaves the store alone (the ValueError is raised before notify/store) *)
   Lemma rejected_write_atomic : forall st o nm v, set_obs prog true st o nm v = None -> ps_mem o nm (ps st) = true.
